@@ -1001,7 +1001,9 @@ impl<'a> Gen<'a> {
             }
             _ if !self.clean => {
                 self.feat("host-spaced");
-                format!(":{}host{}{{{}}}", self.comment(), self.ows(), self.declarations())
+                // `:/**/host` (a comment does not separate tokens) or `: host` (not a pseudo-class)
+                let gap = if self.rng.chance(1, 2) { self.comment() } else { self.ws() };
+                format!(":{}host{}{{{}}}", gap, self.ows(), self.declarations())
             }
             _ => {
                 self.feat("host-pure");
